@@ -1,4 +1,62 @@
-(* placeholder until proofs land *)
-From PV Require Import Model.Window.
-Theorem C15_placeholder : True. Proof. exact I. Qed.
-Print Assumptions C15_placeholder.
+(* C15  SlidingWindow.crop returns exactly the frames its loose/strict/center mode picks.
+   Exact tier (integer ticks, exact quotients); the float side is tied by the correspondence.
+   Statements only. *)
+From PV Require Import Model.Window Proofs.WindowP.
+
+Section C15.
+Variable w : win.
+Hypothesis Hstep : 0 < w_step w.
+Hypothesis Hdur : 0 < w_dur w.
+Variable f : seg.
+
+(* 'loose': exactly the frames whose window touches the focus (closed intervals) *)
+Theorem C15_loose : forall i,
+  (fst (crop_range w f ALoose None) <= i < snd (crop_range w f ALoose None)) <->
+  (st (pos_seg w i) <= en f /\ st f <= en (pos_seg w i)).
+Proof. exact (crop_loose_spec w Hstep f). Qed.
+(* 'strict': exactly the frames whose window lies inside the focus *)
+Theorem C15_strict : forall i,
+  (fst (crop_range w f AStrict None) <= i < snd (crop_range w f AStrict None)) <->
+  (st f <= st (pos_seg w i) /\ en (pos_seg w i) <= en f).
+Proof. exact (crop_strict_spec w Hstep f). Qed.
+Theorem C15_strict_subset_of_loose : forall i,
+  (fst (crop_range w f AStrict None) <= i < snd (crop_range w f AStrict None)) ->
+  (fst (crop_range w f ALoose None) <= i < snd (crop_range w f ALoose None)).
+Proof. exact (crop_strict_sub_loose 0 (Z.le_refl 0) w Hdur Hstep f). Qed.
+(* 'center': from the frame nearest the focus start to the frame nearest its end *)
+Theorem C15_center : crop_range w f ACenter None = (closest_frame w (st f), closest_frame w (en f) + 1).
+Proof. exact (crop_center_spec w f). Qed.
+(* with `fixed`: exactly samples(fixed, mode) frames wherever the focus lies *)
+Theorem C15_fixed_count : forall m d,
+  snd (crop_range w f m (Some d)) - fst (crop_range w f m (Some d)) = samples w d m.
+Proof. exact (crop_fixed_count w f). Qed.
+(* the index array enumerates the half-open range, increasing and duplicate free *)
+Theorem C15_index_array : forall i j k, In k (zrange i j) <-> i <= k < j.
+Proof. exact zrange_In. Qed.
+End C15.
+
+(* Timeline focus: the sorted, duplicate-free union over the focus's support segments; empty for an empty focus *)
+Theorem C15_timeline_focus : forall eps w focus m,
+  zincreasing (crop_indices_tl eps w focus m) /\
+  forall k, In k (crop_indices_tl eps w focus m) <->
+            exists s, In s (support eps 0 focus) /\
+                      fst (crop_range w s m None) <= k < snd (crop_range w s m None).
+Proof. exact crop_indices_tl_spec. Qed.
+Theorem C15_empty_focus : forall eps w m, crop_indices_tl eps w [] m = [] /\ crop_ranges_tl eps w [] m = [].
+Proof. exact crop_empty_focus. Qed.
+
+Example C15_nonvacuous :
+  crop_range (mkWin 2 1 0 None) (3, 7) ALoose None = (1, 8) /\
+  crop_range (mkWin 2 1 0 None) (3, 7) AStrict None = (3, 6) /\
+  crop_range (mkWin 2 1 0 None) (3, 7) ACenter None = (2, 7) /\
+  crop_ranges_tl 0 (mkWin 2 1 0 None) [(0, 2); (3, 4); (9, 12)] ALoose = [(-2, 5); (7, 13)].
+Proof. vm_compute. repeat split. Qed.
+
+Print Assumptions C15_loose.
+Print Assumptions C15_strict.
+Print Assumptions C15_strict_subset_of_loose.
+Print Assumptions C15_center.
+Print Assumptions C15_fixed_count.
+Print Assumptions C15_index_array.
+Print Assumptions C15_timeline_focus.
+Print Assumptions C15_empty_focus.
